@@ -151,7 +151,7 @@ def run_group(entry, repo='/repo', tier='quick', seed=0):
         env = dict(os.environ, CARGO_NET_OFFLINE='true')
         env.pop('RUSTFLAGS', None)
         if tier == 'thorough':
-            env['RUSTFLAGS'] = '--cfg verif_thorough'
+            env['RUSTFLAGS'] = entry.get('rustflags_thorough', '--cfg verif_thorough')
         jobs = str(min(len(hs), int(grp.get('jobs', 8))))
         cmd = ['cargo', 'kani', '-Z', 'function-contracts', '-Z', 'stubbing', '-Z', 'unstable-options', '-j', jobs,
                '--output-format', 'terse']
